@@ -64,6 +64,20 @@ def rule_rename_first(rep: Report, repo: Repo) -> None:
               expected='a NEW RepCall with the new iterator and its references renamed in the arguments only')
 
 
+def _picks_replacement(e: Optional[ast.expr]) -> bool:
+    """`replacement if replacement is not None else self`, in either polarity of the test"""
+    from ..pyfacts import cn, push_not
+    if not isinstance(e, ast.IfExp):
+        return False
+    want = cn(ast.parse('replacement is not None', mode='eval').body)
+    arms = (norm(e.body), norm(e.orelse))
+    if cn(e.test) == want:
+        return arms == ('replacement', 'self')
+    if cn(push_not(e.test, True)) == want:
+        return arms == ('self', 'replacement')
+    return False
+
+
 def rule_simult(rep: Report, repo: Repo) -> None:
     rep.rule('C03.SIMULT-SUBST', 'substitution is simultaneous and single-pass: a replacement taken from the dictionary is returned '
              'without being substituted again; rep arguments are instantiated with a dictionary holding only the iterator', 3)
@@ -73,7 +87,7 @@ def rule_simult(rep: Report, repo: Repo) -> None:
     for n in ast.walk(ev):
         if isinstance(n, ast.If) and norm(n.test) == 'isinstance(value, str)':
             body = [norm(s) for s in n.body]
-            ok = body == ['replacement = params_dict.get(value)', 'return replacement if replacement is not None else self']
+            ok = len(n.body) == 2 and body[0] == 'replacement = params_dict.get(value)' and isinstance(n.body[1], ast.Return) and _picks_replacement(n.body[1].value)
     rep.check(ok, 'C03.SIMULT-SUBST', 'Expr.eval_new:name-branch', 'returns the dictionary value itself (no recursive eval_new on it)',
               f'{EXPR}:{ev.lineno}', expected='replacement returned as-is')
     # sub-expressions are substituted with the SAME dictionary (no dictionary growth on the way down)
@@ -203,7 +217,9 @@ def rule_subst_complete(rep: Report, repo: Repo) -> None:
         ea = [norm(s.targets[0]) for s in lp.body if isinstance(s, ast.Assign) and norm(s.value) == f'{lv}.eval_new({dic})']
         acc = [dotted(s.value.func)[:-len('.append')] for s in lp.body if isinstance(s, ast.Expr) and isinstance(s.value, ast.Call)
                and dotted(s.value.func).endswith('.append') and ea and [norm(a) for a in s.value.args] == [ea[0]]]
-        flag = [norm(s.body[0].targets[0]) for s in lp.body if isinstance(s, ast.If) and ea and norm(s.test) == f'{ea[0]} is not {lv}'
+        from ..pyfacts import cn as _cn
+        differs = {_cn(ast.parse(t_, mode='eval').body) for t_ in (f'{ea[0]} is not {lv}', f'{lv} is not {ea[0]}')} if ea else set()     # identity is symmetric
+        flag = [norm(s.body[0].targets[0]) for s in lp.body if isinstance(s, ast.If) and ea and _cn(s.test) in differs
                 and len(s.body) == 1 and isinstance(s.body[0], ast.Assign) and norm(s.body[0].value) == 'False' and not s.orelse]
         if len(ea) == 1 and len(acc) == 1 and len(flag) == 1:
             fl = flag[0]
